@@ -10,6 +10,20 @@ Spec (client mode; TCPClient against a raw listening socket owned by the harness
   {"mode": "client", "ops": [[op, a, b, k], ...]}
 
 One loop iteration = ``root.fire(generate_events(root._lock, 0), '*'); root.tick()``.
+
+Oracle (per poller universe; the three universes are judged independently by the same rules, their histories
+may legitimately diverge because an op is resolved against what the observer has seen so far):
+  * per server-side socket the observer's connect/read/disconnect events match  connect . read* . disconnect
+    and nothing follows; every peer that was not reset before the server accepted it is announced;
+  * concatenated read data is a prefix of what the peer sent, and all of it when the connection ended without
+    any possible reset (no abort, nothing unread/untransmitted at the peer's close, no server-side close);
+  * a close(sock) the application asked for completes while the peer is still there and reading;
+  * after all peers are gone: Server._clients/_buffers/_closeq empty, poller _read/_write/_targets/_map hold only
+    the listener and the control pipe -- whatever late write/close was addressed to dead sockets;
+  * client mode: connected/disconnected alternate, one disconnected per connected at the end.
+Never waited for: time. If the component still holds data for a socket and is registered as writer but the kernel
+does not take the data within the iteration bound (zero window, retransmission timers of a peer with a tiny
+receive buffer), the pending deferred close is reported as an inconclusive case, not as a violation.
 """
 import hashlib
 import os
@@ -813,7 +827,8 @@ class C12(Prop):
     assumptions = ('Linux loopback TCP: delivery of data/FIN/RST happens inside the sending system call; the interpreter '
                    'nevertheless only waits on conditions (bounded iteration counts), never on time',
                    'chunking of reads, error events and which prefix of the data is delivered before a reset are not asserted',
-                   'a connection reset by the peer before the server could accept it need not be announced at all')
+                   'a connection reset by the peer before the server could accept it need not be announced at all',
+                   'a deferred close whose data the kernel does not take within the iteration bound is inconclusive')
     budget = {'quick': (450, 4), 'thorough': (10000, 16)}
 
     def setup(self):
